@@ -204,3 +204,49 @@ fn h_w_close_loss() {
 fn h_w_fin_reack() {
     w_fin_reack::simultaneous_close_with_both_fin_acks_lost();
 }
+
+#[cfg(vx_replay)]
+#[path = "/verif/units/tcb/w/isn_independence.rs"]
+mod w_isn;
+
+//# id=witness.behaviour_does_not_depend_on_the_isn props=C12,C01,C02 kind=witness pair=tcb.Tcb.process_segment.appended_bytes_continue_the_stream,tcb.Tcb.process_segment.acceptable_text_is_delivered,tcb.Tcb.process_segment.text_on_a_syn_is_delivered_whole,tcb.Tcb.remove_acked_from_retransmission.safety,tcb.Tcb.segments.new_segments_carry_the_stream_in_order,tcb.Tcb.segments.safety,tcb.Tcb.process_segment.safety
+// the same lossy, duplicating exchange for seven ISN pairs (wrap during handshake / transfer on either side)
+#[cfg(vx_replay)]
+#[test]
+fn h_w_isn_independence() {
+    w_isn::behaviour_does_not_depend_on_the_isn();
+}
+
+//# id=witness.window_updates_across_the_wrap props=C17,C12 kind=witness pair=tcb.Tcb.ack_established_processing.window_follows_the_latest_advertisement,tcb.Tcb.ack_established_processing.safety
+#[cfg(vx_replay)]
+#[test]
+fn h_w_window_update_wrap() {
+    w_isn::window_updates_are_followed_across_the_wrap();
+}
+
+//# id=witness.data_after_our_close props=C03,C01 kind=witness pair=tcb.Tcb.process_segment.acceptable_text_is_delivered
+#[cfg(vx_replay)]
+#[test]
+fn h_w_data_after_close() {
+    w_isn::data_after_our_close_is_still_delivered();
+}
+
+//# id=witness.late_reader props=C01,C02 kind=witness pair=tcb.Tcb.process_segment.appended_bytes_continue_the_stream,tcb.Tcb.process_segment.acceptable_text_is_delivered
+#[cfg(vx_replay)]
+#[test]
+fn h_w_late_reader() {
+    w_isn::partly_accepted_segment_is_completed_later();
+}
+
+#[cfg(vx_replay)]
+#[path = "/verif/units/tcb/w/open_close.rs"]
+mod w_open_close;
+
+//# id=witness.simultaneous_open_and_close props=C03 kind=witness pair=tcb.Tcb.process_segment.only_rfc9293_transitions,tcb.Tcb.process_segment.release_only_by_final_ack_or_reset,tcb.Tcb.advance_time.released_exactly_when_time_wait_expires,tcb.Tcb.close.close_transitions
+#[cfg(vx_replay)]
+#[test]
+fn h_w_open_close() {
+    w_open_close::simultaneous_open_reaches_established_and_carries_data();
+    w_open_close::simultaneous_close_releases_both_after_time_wait();
+    w_open_close::data_in_both_directions_survives_the_closes();
+}
